@@ -451,7 +451,9 @@ class StatefulAutonomous:
         new_state_start = tm
 
         # determine if the time has passed to execute the next state
-        if state is not None and state.expires < tm:
+        # -> only a state that has been run since it was entered can expire,
+        #    otherwise the expiry time is a leftover from an earlier run
+        if state is not None and state.ran and state.expires < tm:
             self.next_state(state.next_state)
             new_state_start = state.expires
             state = self.__state
